@@ -601,7 +601,7 @@ _UNDERFULL = re.compile(r'^cmp\[\+ Vec::len\((?P<e1>.+)→CachedQueryResult\.res
 def ifi_ok(ctx, prog):
     f = ctx.body('C07.R8', 'QueryHashCache::invalidate_for_insert')
     of = flow.Origin(f)
-    heads = [c for c in f.calls if c.is_('re:Iterator>::next$') and c.bb in f.reach([c.bb]) and c.args and
+    heads = [c for c in f.calls if c.is_('re:Iterator>::next$') and c.bb in f.reach(f.succ(c.bb)) and c.args and
              re.search(r'QueryCacheState\.cache\)*$', flow.render(of.of_operand(c.args[0])))]
     if len(heads) != 1:
         ctx.missing('C07.R8', 'invalidate_for_insert: the scan loop over QueryCacheState.cache (%d candidates)' % len(heads))
@@ -637,7 +637,7 @@ def ifi_ok(ctx, prog):
               if not nuf else
               'the next entry is reachable without removing the current one and without passing the not-under-full edge' if leak else
               'the under-full edge does not schedule the entry for removal' if uf_leak else 'removal pushes not recognised') if not (bool(starts) and bool(pushes) and bool(nuf) and not leak and not uf_leak)
-             else '%d removal sites in the scan; keep paths cross the not-under-full edge %s; the under-full edge removes' % (len(pushes), nuf))
+             else '%d removal sites in the scan; keep paths cross the not-under-full edge of the test at %s; the under-full edge removes' % (len(pushes), sorted(set(f.loc_of(i_) for i_, _ in nuf))))
     ctx.floor('C07.R8', 'removal sites in the scan of invalidate_for_insert', len(pushes), 3, 'missing embedding, under-full, dimension mismatch, non-finite boundary, non-finite distance, inside the boundary (6 on the pinned tree)')
     return True
 
